@@ -27,21 +27,12 @@ def prop(pid, targets, engine, rule, technique, level_text, level_note, assumpti
 COMMON_ASSUME = ['rapidcheck, clang 14 ASan/UBSan and the harness reference model are trusted',
                  'the harness takes the place of the hardware binding; nrf5x register level code is not executed']
 
-# ------------------------------------------------------------------------------------------------- C12
-target('c12_queue', 'engines/comp/c12_queue.cpp',
-       quick=dict(cases=40000, size=120), thorough=dict(cases=3000000, size=200))
-prop('C12', ['c12_queue'], 'comp',
-     rule='rapidcheck generates a priority partition (24 instantiated compositions of 1..9 characteristics into 1..4 levels, '
-          'single-entry levels in every position) and a sequence of queue_notification/queue_indication/dequeue/confirm/clear '
-          'operations (length grows with the rapidcheck size); a case is non-trivial if it contains a dequeue while two or more '
-          'levels hold eligible requests, or a single-entry level held both kinds at once; distinct = distinct serialised cases',
-     technique='model-based property testing (rapidcheck) against a set-of-pending-requests reference model with priority and round-robin fairness oracles',
-     level_text='generated operation sequences are compared step by step with an explicit set model: return values, exactly-once '
-                'dequeue, strict priority between levels, no characteristic served twice while another of the same level stays '
-                'pending; a final drain proves nothing is lost. Sampling, not proof.',
-     level_note='trusted: the reference model in engines/comp/c12_queue.cpp, rapidcheck; fairness is asserted between '
-                'characteristics of one level (not between the two kinds of one characteristic)',
-     assumptions=COMMON_ASSUME)
+# ------------------------------------------------------------------------------------------------- fragments
+# every harness registers itself in engines/<engine>/<name>.reg.py (executed here with target(), prop(), LL_SRC,
+# COMMON_ASSUME, TARGETS, PROPERTIES, BUILDERS, SETUP_HOOKS in scope)
+import glob as _glob, os as _os
+for _f in sorted(_glob.glob(_os.path.join(_os.path.dirname(_os.path.abspath(__file__)), 'engines', '*', '*.reg.py'))):
+    exec(compile(open(_f).read(), _f, 'exec'), globals())
 
 # ------------------------------------------------------------------------------------------------- manifest parts
 HOOKS = {
